@@ -219,6 +219,8 @@ pub fn run(o: &DriveOpts, out: &mut dyn Write, tid: usize) -> Value {
     let mut rec = Recorder { out, tid, events: 0, mirror_next: false, progress: o.progress.clone(), last_id: None, observe_every: if o.profile == "observe" { 25 } else { 0 }, own: BTreeMap::new() };
     rec.reset(&w);
     let win = o.window.min(o.cap);
+    // profile "high": the ids in play are the LAST `window` ids below the capacity
+    let idbase = if o.profile == "high" { o.cap - win } else { 0 };
     let mut ok = true;
     let profile = o.profile.as_str();
 
@@ -238,6 +240,24 @@ pub fn run(o: &DriveOpts, out: &mut dyn Write, tid: usize) -> Value {
                 && rec.call(&mut w, HCall { h: 0, call: Call::Add { v: b } })
                 && rec.call(&mut w, HCall { h: 0, call: Call::Bind { v1: a, v2: b, a: labels[0].clone() } })
                 && rec.call(&mut w, HCall { h: 0, call: Call::Put { v: b, d: datas[i % datas.len()].clone() } });
+        }
+    }
+    if profile == "fan" {
+        // a hub with as many labels as N allows (up to 16): 15 children in its group (16 members), the remaining label to
+        // a child again; then data on some children, so that the random part collects, re-adds and re-binds around it
+        let hub = 0usize;
+        ok = ok && rec.call(&mut w, HCall { h: 0, call: Call::Add { v: hub } });
+        let kids = 15usize.min(o.cap - 1).min(o.n);
+        for i in 1..=kids {
+            ok = ok
+                && rec.call(&mut w, HCall { h: 0, call: Call::Add { v: i } })
+                && rec.call(&mut w, HCall { h: 0, call: Call::Bind { v1: hub, v2: i, a: labels[(i - 1) % labels.len()].clone() } });
+        }
+        if o.n > kids && labels.len() > kids {
+            ok = ok && rec.call(&mut w, HCall { h: 0, call: Call::Bind { v1: hub, v2: 1, a: labels[kids].clone() } });
+        }
+        for i in (1..=kids).step_by(3) {
+            ok = ok && rec.call(&mut w, HCall { h: 0, call: Call::Put { v: i, d: datas[i % datas.len()].clone() } });
         }
     }
     if profile == "pairs" {
@@ -604,7 +624,7 @@ pub fn run(o: &DriveOpts, out: &mut dyn Write, tid: usize) -> Value {
             // a script that fails AFTER its variables got their ids and formed a group with an unread datum; the group is then
             // read and collected and the allocator asked again: it must not hand those ids out a second time
             let before = vw.present.clone();
-            let l = labels.iter().find(|a| a.is_ascii() && !a.contains('-')).cloned().unwrap_or_else(|| "foo".to_string());
+            let l = labels.iter().find(|a| a.is_ascii() && !a.contains('-') && !a.starts_with('~') && !a.contains(' ')).cloned().unwrap_or_else(|| "foo".to_string());
             let prog = json!([{"c": "ADD", "v": {"k": "var", "name": "a"}}, {"c": "ADD", "v": {"k": "var", "name": "b"}},
                               {"c": "BIND", "v1": {"k": "var", "name": "a"}, "v2": {"k": "var", "name": "b"}, "a": l},
                               {"c": "PUT", "v": {"k": "var", "name": "b"}, "d": "CA-FE"}, {"c": "ADD", "v": {"k": "lit", "id": 0}}]);
@@ -627,7 +647,7 @@ pub fn run(o: &DriveOpts, out: &mut dyn Write, tid: usize) -> Value {
                 }
             }
             continue;
-        } else if profile == "script" && r > 0.90 && {
+        } else if (profile == "script" || profile == "world") && r > 0.90 && r < 0.94 && {
             let sn = w.g(0).snap();
             (sn.next_v..sn.capacity).filter(|i| sn.slots[*i].as_ref().map(|s| s.tag == 0).unwrap_or(false)).count() >= 5
         } {
@@ -653,7 +673,7 @@ pub fn run(o: &DriveOpts, out: &mut dyn Write, tid: usize) -> Value {
                     let var = vars.choose(&mut rng).unwrap().clone();
                     let v = *vw.present.choose(&mut rng).unwrap();
                     let a = labels.iter().take(o.n.max(1)).collect::<Vec<_>>().choose(&mut rng).map(|x| (*x).clone()).unwrap();
-                    let a_ok = a.is_ascii() && !a.contains('-');
+                    let a_ok = a.is_ascii() && !a.contains('-') && !a.starts_with('~') && !a.contains(' ');
                     let room_v = vw.nlabels[&v].contains(&a) || vw.nlabels[&v].len() < o.n;
                     let gs = vw.tag[&v];
                     let fits = gs < 2 || vw.group_size[&gs] + vars.len() < 15;
@@ -687,7 +707,7 @@ pub fn run(o: &DriveOpts, out: &mut dyn Write, tid: usize) -> Value {
                         texts.push(format!("PUT( {} ,{dtxt} )", lit(v, nu)));
                     }
                 } else {
-                    let v = rng.gen_range(0..win);
+                    let v = idbase + rng.gen_range(0..win);
                     prog.push(json!({"c": "ADD", "v": {"k": "lit", "id": v}}));
                     texts.push(format!("ADD ({})", lit(v, nu)));
                 }
@@ -711,7 +731,7 @@ pub fn run(o: &DriveOpts, out: &mut dyn Write, tid: usize) -> Value {
                 }
                 Some(Call::Deploy { text, prog: json!(prog), fault_at })
             }
-        } else if profile == "slice" && r > 0.70 && !vw.present.is_empty() {
+        } else if (profile == "slice" && r > 0.70 || profile == "world" && r > 0.94 && r < 0.955 && !twin_alive) && !vw.present.is_empty() {
             let v = *vw.present.choose(&mut rng).unwrap();
             let ks = w.g(0).kids(v).unwrap_or_default();
             let p = match rng.gen_range(0..7) {
@@ -736,7 +756,7 @@ pub fn run(o: &DriveOpts, out: &mut dyn Write, tid: usize) -> Value {
             let v = if rng.gen_bool(0.25) && !vw.present.is_empty() {
                 *vw.present.choose(&mut rng).unwrap()
             } else {
-                rng.gen_range(0..win)
+                idbase + rng.gen_range(0..win)
             };
             Some(Call::Add { v })
         } else if r < 0.22 {
@@ -801,6 +821,11 @@ pub fn run(o: &DriveOpts, out: &mut dyn Write, tid: usize) -> Value {
             Some(if twin_is_clone { Call::Clone { dst: 1 } } else { Call::Reload { dst: 1 } })
         };
         let Some(call) = call else { continue };
+        if twin_alive && !twin_is_clone && matches!(call, Call::Deploy { .. }) {
+            // a reloaded copy allocates from the lowest absent id (the permitted difference): a script with variables would
+            // legitimately take other ids there, so the side-by-side comparison ends here
+            twin_alive = false;
+        }
         let mirrored = twin_alive
             && w.gs.get(1).map(|x| x.is_some()).unwrap_or(false)
             && !matches!(call, Call::Clone { .. } | Call::Reload { .. } | Call::Slice { .. })
